@@ -120,6 +120,14 @@ fn result_line(r: Option<(Result<Cfg, CFGError>, ReportCollection)>) -> String {
     }
 }
 
+fn short_result(r: Option<(Result<Cfg, CFGError>, ReportCollection)>) -> String {
+    match r {
+        None => "(panic)".to_string(),
+        Some((Err(e), _)) => format!("(err {})", error_kind(&e)),
+        Some((Ok(_), _)) => "(ok)".to_string(),
+    }
+}
+
 fn chain_line(r: Option<(Result<Cfg, CFGError>, ReportCollection)>) -> String {
     match r {
         None => "(chain panic-lift)".to_string(),
@@ -203,6 +211,11 @@ fn api_check(cfg: &Cfg) -> String {
         Some(i) => bad.push(format!("entry_block().index()={i}")),
         None => bad.push("entry_block()-panics".to_string()),
     }
+    if let (Some(first), Some(e)) = (cfg.iter().next(), guarded(|| cfg.entry_block().statements().len())) {
+        if first.statements().len() != e {
+            bad.push("entry_block()-is-not-the-first-block".to_string());
+        }
+    }
     for (pos, b) in cfg.iter().enumerate() {
         match cfg.get_basic_block(pos) {
             Some(x) if x.index() == b.index() && x.statements().len() == b.statements().len() => {}
@@ -227,6 +240,63 @@ fn api_check(cfg: &Cfg) -> String {
 }
 
 /// the WF field of one definition: the real `into_cfg` again (it is a function of the definition), then `into_ssa`
+/// mode `c12` (fourth audit): the WF field is followed by `PRE <irdump::cfg before into_ssa>` and `POST <irdump::cfg
+/// after into_ssa | - >`, the two REAL graphs with their statements, for the extracted decision procedures of
+/// Model.IrCfgCheck (phi_free, cfg_wf, ssa_shape_of); RES is shortened to the decision `(ok)` / `(err KIND ..)` / `(panic)`.
+/// mode `c12`: the REAL definition_complexity.rs pass (run through `get_analysis_passes()`, the module is private) on the
+/// SSA graph against the formula of the property's anchor, `2 + edges - nodes > 20` with edges = sum of the successor set
+/// sizes and nodes = number of blocks (no underflow by C12_complexity_no_underflow): `ok` or the mismatch.
+struct NoContext;
+impl program_analysis::analysis_context::AnalysisContext for NoContext {
+    fn is_function(&self, _: &str) -> bool {
+        false
+    }
+    fn is_template(&self, _: &str) -> bool {
+        false
+    }
+    fn function(&mut self, name: &str) -> Result<&Cfg, program_analysis::analysis_context::AnalysisError> {
+        Err(program_analysis::analysis_context::AnalysisError::UnknownFunction { name: name.to_string() })
+    }
+    fn template(&mut self, name: &str) -> Result<&Cfg, program_analysis::analysis_context::AnalysisError> {
+        Err(program_analysis::analysis_context::AnalysisError::UnknownTemplate { name: name.to_string() })
+    }
+    fn underlying_str(
+        &self,
+        file_id: &program_structure::file_definition::FileID,
+        file_location: &FileLocation,
+    ) -> Result<String, program_analysis::analysis_context::AnalysisError> {
+        Err(program_analysis::analysis_context::AnalysisError::InvalidLocation {
+            file_id: *file_id,
+            file_location: file_location.clone(),
+        })
+    }
+}
+
+fn complexity_check(cfg: &Cfg) -> String {
+    let nodes = cfg.iter().count();
+    let edges: usize = cfg.iter().map(|b| b.successors().len()).sum();
+    let expected = edges + 2 > nodes + 20;
+    let mut got = false;
+    let mut panicked = false;
+    for pass in program_analysis::get_analysis_passes() {
+        match guarded(|| pass(&mut NoContext, cfg)) {
+            Some(reports) => got |= reports.iter().any(|r| r.id() == "CS0011"),
+            None => panicked = true,
+        }
+    }
+    if got == expected && !panicked {
+        "ok".to_string()
+    } else {
+        format!("complexity-warning={got}/expected={expected}(edges={edges},nodes={nodes}){}", if panicked { ",a-pass-panics" } else { "" })
+    }
+}
+
+static C12_DUMPS: std::sync::atomic::AtomicBool = std::sync::atomic::AtomicBool::new(false);
+
+fn c12_mode() -> bool {
+    C12_DUMPS.load(std::sync::atomic::Ordering::Relaxed)
+}
+
 fn wf_field(body: &program_structure::ast::Statement, lift: impl FnOnce() -> Option<Cfg>) -> String {
     let mut n = Vec::new();
     nest(body, 0, &mut n);
@@ -235,6 +305,8 @@ fn wf_field(body: &program_structure::ast::Statement, lift: impl FnOnce() -> Opt
         Some(None) => format!("(wf {} # error # - # -)", n.join(" ")),
         Some(Some(cfg)) => {
             let before = shape(&cfg);
+            let pre_dump = if c12_mode() { irdump::cfg(&cfg) } else { String::new() };
+            let mut post_dump = "-".to_string();
             let mut api = api_check(&cfg);
             // fail-safe: into_ssa is skipped on bodies with more than 400 statements and conditions (printed as
             // `skipped` and counted by lib/props/liftfull_engine.py; none in a quick run)
@@ -249,10 +321,20 @@ fn wf_field(body: &program_structure::ast::Statement, lift: impl FnOnce() -> Opt
                         if a2 != "ok" {
                             api = if api == "ok" { format!("ssa:{a2}") } else { format!("{api},ssa:{a2}") };
                         }
+                        if c12_mode() {
+                            post_dump = irdump::cfg(&ssa);
+                            let cx = complexity_check(&ssa);
+                            if cx != "ok" {
+                                api = if api == "ok" { cx } else { format!("{api},{cx}") };
+                            }
+                        }
                         shape(&ssa)
                     }
                 }
             };
+            if c12_mode() {
+                return format!("(wf {} # {} # {} # {})\tPRE\t{}\tPOST\t{}", n.join(" "), before, after, api, pre_dump, post_dump);
+            }
             format!("(wf {} # {} # {} # {})", n.join(" "), before, after, api)
         }
     }
@@ -316,7 +398,7 @@ fn run_with(line: &str, raw: bool, chain: bool, curve: &Curve) -> String {
             (c, rs)
         });
         out.push("RES".to_string());
-        out.push(if chain { chain_line(r) } else { result_line(r) });
+        out.push(if chain { chain_line(r) } else if c12_mode() { short_result(r) } else { result_line(r) });
         if !chain {
             out.push("WF".to_string());
             out.push(wf_field(t.get_body(), || {
@@ -335,7 +417,7 @@ fn run_with(line: &str, raw: bool, chain: bool, curve: &Curve) -> String {
             (c, rs)
         });
         out.push("RES".to_string());
-        out.push(if chain { chain_line(r) } else { result_line(r) });
+        out.push(if chain { chain_line(r) } else if c12_mode() { short_result(r) } else { result_line(r) });
         if !chain {
             out.push("WF".to_string());
             out.push(wf_field(f.get_body(), || {
@@ -373,6 +455,9 @@ fn main() {
             .expect("chain: cannot start the worker thread");
         t.join().expect("chain: worker thread died");
         return;
+    }
+    if std::env::args().nth(1).map(|a| a == "c12").unwrap_or(false) {
+        C12_DUMPS.store(true, std::sync::atomic::Ordering::Relaxed);
     }
     each_line(|l| run(l, raw, chain));
 }
